@@ -1,8 +1,8 @@
-(* C10 — A waiting step resumes once, with a matching event or a timeout (reducer level).
-   Statements only; every proof is `exact <lemma>` from Proofs/EngineRoute.v. *)
+(* C10 — A waiting step resumes once, with a matching event or a timeout (reducer level, then run-loop level).
+   Statements only; every proof is `exact <lemma>` from Proofs/EngineRoute.v and Proofs/RunnerConserveWT.v. *)
 From Coq Require Import List ZArith Bool PeanoNat.
 Import ListNotations.
-From WF Require Import Model.Engine Proofs.EngineCap Proofs.EngineRoute.
+From WF Require Import Model.Engine Model.Runner Proofs.EngineCap Proofs.EngineRoute Proofs.RunnerConserveWT.
 Open Scope Z_scope.
 
 (* definitions restated so they cannot be weakened elsewhere *)
@@ -104,3 +104,28 @@ Example C10_nonvacuous :
   | Err _ => False end.
 Proof. vm_compute. repeat split. Qed.
 Print Assumptions C10_nonvacuous.
+
+(* ---- the run loop (Model/Runner.v): one timeout tick per scheduled waiter timeout, for EVERY schedule ----
+   While the run is live, whatever the order of worker completions, deliveries and clock advances: the waiter-timeout
+   ticks the reducer scheduled along the processed-tick log (one CommandScheduleWaiterTimeout per newly registered
+   waiter with a timeout - C10_new_waiter_publishes_once, C10_existing_waiter_is_silent) plus those the environment delivered are, counted
+   under ANY observation f, exactly the waiter-timeout ticks the reducer has processed plus those still in the timer
+   heap, tick buffer or mailbox: no scheduled timeout is lost, none reaches the reducer twice.  (That a timeout tick
+   after the waiter was resolved is a no-op is C10_timeout_after_resolution_is_noop; that no timer fires before its
+   time is C06_runner_never_early.) *)
+Theorem C10_run_loop_definitions_are : forall l f cs,
+  adds l = filter (fun t => match t with TWaiterTimeout _ _ => true | _ => false end) l /\
+  cntf f l = length (filter f l) /\
+  queued_of cs = flat_map (fun c => match c with CSchedWaiterTimeout s w _ => [TWaiterTimeout s w] | _ => [] end) cs.
+Proof. intros. repeat split; reflexivity. Qed.
+Print Assumptions C10_run_loop_definitions_are.
+
+Theorem C10_run_loop_conserves_waiter_timeouts : forall P s e now acts,
+  Runner.outcome (run_at P s e now acts) = ORunning ->
+  let r := run_at P s e now acts in
+  (forall f, cntf f (adds (ticklog r)) + cntf f (adds (tbuf r)) + cntf f (adds (mailbox r)) +
+             cntf f (adds (map snd (wakeups r))) =
+             cntf f (queued_of (run_cmds P s (tlog r))) + cntf f (adds (envlog r)))%nat /\
+  run_ticks P s (tlog r) = Ok (st r) /\ ticklog r = map fst (tlog r).
+Proof. exact run_conserves_waiter_timeouts. Qed.
+Print Assumptions C10_run_loop_conserves_waiter_timeouts.
